@@ -955,11 +955,28 @@ func (r *PipelineRunner) cancelJobInternal(id uuid.UUID) error {
 	if job.Start == nil {
 		job.markAsCanceled()
 
+		// A canceled job must not occupy a slot on the wait list (it would count against the queue limit
+		// and, with a pending start delay, block the jobs queued behind it)
+		if job.startTimer != nil {
+			job.startTimer.Stop()
+			job.startTimer = nil
+		}
+		waitList := r.waitListByPipeline[job.Pipeline]
+		for i, queuedJob := range waitList {
+			if queuedJob == job {
+				r.waitListByPipeline[job.Pipeline] = append(waitList[:i:i], waitList[i+1:]...)
+				break
+			}
+		}
+
 		log.
 			WithField("component", "runner").
 			WithField("pipeline", job.Pipeline).
 			WithField("jobID", job.ID).
 			Debugf("Marked job as canceled, since it was not started")
+
+		// The canceled job might have been at the head of the wait list, so the next job could be eligible now
+		r.startJobsOnWaitList(job.Pipeline)
 
 		r.requestPersist()
 
